@@ -296,12 +296,31 @@ func runC03(tier string, seed uint64) int {
 		// the batch line. Whatever a session shares between runs is then asked for by runs that must interpret it differently.
 		nFixed := len(lines)
 		vr := NewRng(mix(bseed, 4141))
-		nVar := 9 // every kind of setting once
+		nVar := 10 // every kind of setting once
 		if tier == "thorough" {
-			nVar = 18
+			nVar = 20
+		}
+		if err := writeAltParamFolder(filepath.Join(root, "param_alt")); err != nil {
+			fmt.Println("INCONCLUSIVE:", err)
+			os.RemoveAll(root)
+			return 2
 		}
 		for v := 0; v < nVar; v++ {
 			k := vr.Intn(nProj)
+			if v%10 == 9 {
+				// the variant with another parameter folder: a project that reads its soil parameters from the texture table
+				for j := 0; j < nProj; j++ {
+					c := scs[(k+j)%nProj]
+					custom := false
+					for _, t := range lines[(k+j)%nProj].Tokens {
+						custom = custom || strings.HasPrefix(t, "parameter=")
+					}
+					if c.PTF == 0 && c.Soil.Horizons[0].FC == 0 && !custom {
+						k = (k + j) % nProj
+						break
+					}
+				}
+			}
 			l := lines[k]
 			l.ID = fmt.Sprintf("L%02dv%d", k, v)
 			l.Tokens = append(append([]string{}, l.Tokens...), variantTokens(scs[k], vr, v)...)
@@ -684,7 +703,7 @@ func variantTokens(sc *Scenario, r *Rng, v int) []string {
 	for len(out) < want {
 		c := r.Intn(9)
 		if len(out) == 0 {
-			c = v % 9 // the v-th variant of a batch starts with setting kind v
+			c = v % 10 // the v-th variant of a batch starts with setting kind v
 		}
 		if used[c] {
 			continue
@@ -714,6 +733,9 @@ func variantTokens(sc *Scenario, r *Rng, v int) []string {
 			out = append(out, fmt.Sprintf("CO2concentration=%d", 450+r.Intn(300)))
 		case 8:
 			out = append(out, fmt.Sprintf("GroundWaterPhase=%d", r.Intn(300)))
+		case 9:
+			// the shipped parameter folder with other numbers in the texture tables (see writeAltParamFolder)
+			out = append(out, "parameter=param_alt")
 		}
 	}
 	return out
@@ -744,4 +766,50 @@ func sameHashesIgnoringNames(a, b map[string]string) (bool, string) {
 		}
 	}
 	return true, ""
+}
+
+// writeAltParamFolder: a second parameter folder for the same project tree: every shipped file linked, except the
+// hydraulic table, whose field capacities are 2 vol% lower for every texture and density class
+func writeAltParamFolder(dir string) error {
+	if err := linkParamFolder(dir, map[string]bool{"HYPAR.TRU": true}); err != nil {
+		return err
+	}
+	b, err := os.ReadFile(filepath.Join(paramDir, "HYPAR.TRU"))
+	if err != nil {
+		return err
+	}
+	lines := strings.Split(string(b), "\n")
+	for i, l := range lines {
+		if i == 0 || len(l) < 12 {
+			continue
+		}
+		f := strings.Fields(l[3:])
+		if len(f) < 10 {
+			continue
+		}
+		var nums []int
+		ok := true
+		for _, x := range f[:10] {
+			v, e := strconv.Atoi(x)
+			if e != nil {
+				ok = false
+				break
+			}
+			nums = append(nums, v)
+		}
+		if !ok {
+			continue
+		}
+		for k := 0; k < 6; k++ { // field capacity and available field capacity: the wilting point stays
+			if nums[k] > 4 {
+				nums[k] -= 2
+			}
+		}
+		cr := ""
+		if strings.HasSuffix(l, "\r") {
+			cr = "\r"
+		}
+		lines[i] = fmt.Sprintf("%-3s %2d %2d %2d %2d %2d %2d %2d %2d %2d %2d%s", l[0:3], nums[0], nums[1], nums[2], nums[3], nums[4], nums[5], nums[6], nums[7], nums[8], nums[9], cr)
+	}
+	return os.WriteFile(filepath.Join(dir, "HYPAR.TRU"), []byte(strings.Join(lines, "\n")), 0644)
 }
